@@ -803,6 +803,47 @@ def g_context(mode):
                 fail(group="C12", scenario="an ordinary call following a blob call from the same thread", request_annotations=sorted(sent),
                      violated="the ordinary call carried the blob bookkeeping annotation of the EARLIER call: the served method read request annotations %r" % (later,))
 
+    # a oneway call whose thread only gets to run while the server thread is already serving the NEXT request (the start of the oneway thread is held back and released
+    # from inside the next method): the oneway method must still read ITS request's context (sequence number, annotations), not the live context of the server thread
+    seen, ran = [], threading.Event()
+
+    @api.expose
+    class Deferred(object):
+        @api.oneway
+        def late_ctx(self):
+            seen.append((current_context.seq, sorted(current_context.annotations.keys())))
+            ran.set()
+
+        def release(self):
+            for t in list(held):
+                orig_start(t)
+            del held[:]
+            ran.wait(3.0)
+            return "released"
+    held = []
+    orig_start = server._OnewayCallThread.start
+    for st in ("thread", "multiplex"):
+        RUNS[0] += 1
+        del seen[:], held[:]
+        ran.clear()
+        with Running(st, THREADPOOL_SIZE=2, THREADPOOL_SIZE_MIN=1) as r4:
+            r4.daemon.register(Deferred(), "deferred")
+            server._OnewayCallThread.start = lambda self: held.append(self)
+            try:
+                c = Raw(r4.addr)
+                c.connect("deferred")
+                c.invoke("deferred", "late_ctx", (), seq=5, flags=P.FLAGS_ONEWAY, annotations={"AAAA": b"first"})
+                c.invoke("deferred", "release", (), seq=6, annotations={"BBBB": b"second"})
+                m = c.reply()
+                c.close()
+            finally:
+                server._OnewayCallThread.start = orig_start
+            if m is None or not seen:
+                fail(group="C12", server=st, scenario="oneway thread started while the next request is served", violated="scenario did not run: reply %r, oneway ran %r" % (m, seen))
+            elif seen[0] != (5, ["AAAA"]):
+                fail(group="C12", server=st, scenario="oneway thread started while the next request is being served",
+                     violated="the oneway method (request seq 5, annotation AAAA) read the call context %r - that of the request the server thread was serving by then" % (seen[0],))
+
     for st in ("thread", "multiplex"):
         with Running(st, THREADPOOL_SIZE=1, THREADPOOL_SIZE_MIN=1) as r:
             r.daemon.register(Ctx(), "ctx")
